@@ -38,6 +38,8 @@ func runWPath(args []string) (map[string]any, error) {
 			// TLC plan: {"init":{"<k>":"<v>",...},"level":n,"req":[...],"big":bool,"ops":[...]}
 			var tp struct {
 				Uni   string     `json:"uni"`
+				Sub   []int      `json:"sub"`
+				Scale uint64     `json:"scale"`
 				Init  [][2]any   `json:"init"`
 				Level int        `json:"level"`
 				Req   []int      `json:"req"`
@@ -47,7 +49,10 @@ func runWPath(args []string) (map[string]any, error) {
 			if err := json.Unmarshal(line, &tp); err != nil {
 				return nil, err
 			}
-			p := exec.PathPlan{Level: tp.Level, Req: tp.Req, Ops: tp.Ops}
+			p := exec.PathPlan{Level: tp.Level, Req: tp.Req, Ops: tp.Ops, Scale: tp.Scale}
+			if tp.Uni != "shape" {
+				p.Uni, p.Sub = tp.Uni, tp.Sub // replays carry their universe
+			}
 			p.Init = tp.Init
 			if tp.Big {
 				for i := 1; i <= 11; i++ {
